@@ -78,3 +78,324 @@ theorem toBufGo_digits (upper : Bool) (cap : Nat) : ∀ (x : List UInt8) (out : 
     rw [ih _ (by simp; omega)]; simp
 
 end Tbox.C19.Hex
+
+/-! ### vector readers -/
+namespace Tbox.C19.Hex
+open Tbox.C19 Tbox.C19.B64
+set_option maxRecDepth 100000
+
+theorem zipIdx_drop : ∀ (l : List UInt8) (n k : Nat), (l.zipIdx n).drop k = (l.drop k).zipIdx (n + k) := by
+  intro l
+  induction l with
+  | nil => intro n k; simp
+  | cons a t ih =>
+    intro n k
+    cases k with
+    | zero => simp
+    | succ k => simp only [List.zipIdx_cons, List.drop_succ_cons, ih]; congr 1; omega
+
+theorem find_zipIdx (q : UInt8 → Bool) : ∀ (l : List UInt8) (n : Nat),
+    ((l.zipIdx n).find? (fun p => q p.1)).map (·.2) = (l.findIdx? q).map (n + ·) := by
+  intro l
+  induction l with
+  | nil => intro n; simp
+  | cons a t ih =>
+    intro n
+    simp only [List.zipIdx_cons, List.find?_cons, List.findIdx?_cons]
+    by_cases h : q a = true
+    · simp [h]
+    · have h' : q a = false := by simpa using h
+      simp only [h', Bool.false_eq_true, if_false]
+      rw [ih (n + 1)]
+      cases List.findIdx? q t with
+      | none => rfl
+      | some k => simp only [Option.map_some]; congr 1; omega
+
+theorem findFirstOf_eq (s set : List UInt8) (from_ : Nat) :
+    findFirstOf s set from_ = ((s.drop from_).findIdx? (fun c => set.contains c)).elim npos (from_ + ·) := by
+  unfold findFirstOf
+  rw [zipIdx_drop]
+  have e := find_zipIdx (fun c => set.contains c) (s.drop from_) (0 + from_)
+  rw [Nat.zero_add] at e ⊢
+  cases hf : ((s.drop from_).zipIdx from_).find? (fun p => set.contains p.1) with
+  | none => rw [hf] at e; simp only [Option.map_none] at e
+            cases hg : (s.drop from_).findIdx? (fun c => set.contains c) with
+            | none => rfl
+            | some k => rw [hg] at e; simp at e
+  | some p => rw [hf] at e; simp only [Option.map_some] at e
+              cases hg : (s.drop from_).findIdx? (fun c => set.contains c) with
+              | none => rw [hg] at e; simp at e
+              | some k => rw [hg] at e; simp only [Option.map_some, Option.some.injEq] at e
+                          simp [e]
+
+theorem findFirstNotOf_eq (s set : List UInt8) (from_ : Nat) :
+    findFirstNotOf s set from_ = ((s.drop from_).findIdx? (fun c => !set.contains c)).elim npos (from_ + ·) := by
+  unfold findFirstNotOf
+  rw [zipIdx_drop]
+  have e := find_zipIdx (fun c => !set.contains c) (s.drop from_) (0 + from_)
+  rw [Nat.zero_add] at e ⊢
+  cases hf : ((s.drop from_).zipIdx from_).find? (fun p => !set.contains p.1) with
+  | none => rw [hf] at e; simp only [Option.map_none] at e
+            cases hg : (s.drop from_).findIdx? (fun c => !set.contains c) with
+            | none => rfl
+            | some k => rw [hg] at e; simp at e
+  | some p => rw [hf] at e; simp only [Option.map_some] at e
+              cases hg : (s.drop from_).findIdx? (fun c => !set.contains c) with
+              | none => rw [hg] at e; simp at e
+              | some k => rw [hg] at e; simp only [Option.map_some, Option.some.injEq] at e
+                          simp [e]
+
+theorem findLastNotOf_concat (init set : List UInt8) (l : UInt8) (h : set.contains l = false) :
+    findLastNotOf (init ++ [l]) set = init.length := by
+  unfold findLastNotOf
+  rw [List.zipIdx_append, List.reverse_append]
+  simp only [List.zipIdx_cons, List.zipIdx_nil, List.reverse_cons, List.reverse_nil, List.nil_append,
+    List.cons_append, List.find?_cons, h, Bool.not_false, Nat.zero_add]
+
+/-- hex digit characters are neither blanks nor anything but digits -/
+theorem digit_not_ws : ∀ (upper : Bool) (n : Fin 16), [32, 9].contains (digitChar upper n.val) = false := by decide +kernel
+
+/-- digits of a byte -/
+theorem charVal_digits (upper : Bool) (b : UInt8) :
+    charVal (digitChar upper (b.toNat / 16)) = .ok (UInt8.ofNat (b.toNat / 16))
+      ∧ charVal (digitChar upper (b.toNat % 16)) = .ok (UInt8.ofNat (b.toNat % 16))
+      ∧ (UInt8.ofNat (b.toNat / 16) <<< 4) ||| UInt8.ofNat (b.toNat % 16) = b
+      ∧ (UInt8.ofNat (b.toNat / 16) <<< 4) ||| (UInt8.ofNat (b.toNat % 16) &&& 0x0f) = b := by
+  cases upper
+  · revert b; apply u8_all; decide +kernel
+  · revert b; apply u8_all; decide +kernel
+
+end Tbox.C19.Hex
+
+namespace Tbox.C19.Hex
+open Tbox.C19 Tbox.C19.B64
+
+/-! ### vector reader without delimiter -/
+theorem flatMap_digits_get (upper : Bool) : ∀ (x : List UInt8) (i : Nat) (h : i < x.length),
+    (x.flatMap (byteChars upper))[2 * i]? = some (digitChar upper (x[i].toNat / 16))
+      ∧ (x.flatMap (byteChars upper))[2 * i + 1]? = some (digitChar upper (x[i].toNat % 16)) := by
+  intro x
+  induction x with
+  | nil => intro i h; simp at h
+  | cons b r ih =>
+    intro i h
+    cases i with
+    | zero => simp [byteChars]
+    | succ j =>
+      have := ih j (by simpa using h)
+      simp only [List.flatMap_cons, byteChars, List.cons_append, List.nil_append]
+      have e1 : 2 * (j + 1) = 2 * j + 1 + 1 := by omega
+      have e2 : 2 * (j + 1) + 1 = 2 * j + 1 + 1 + 1 := by omega
+      rw [e2, e1]
+      simpa using this
+
+theorem flatMap_digits_length (upper : Bool) (x : List UInt8) : (x.flatMap (byteChars upper)).length = 2 * x.length := by
+  induction x with
+  | nil => rfl
+  | cons b r ih => simp only [List.flatMap_cons, List.length_append, ih, byteChars, List.length_cons, List.length_nil]; omega
+
+theorem noDelim_loop (upper : Bool) (x : List UInt8) (hx : 2 * x.length < 2 ^ 64) : ∀ (k i fuel : Nat), i + k = x.length → k + 1 ≤ fuel →
+    noDelimGo (x.flatMap (byteChars upper)) 0 (2 * x.length) fuel i (x.take i) = ⟨none, x⟩ := by
+  intro k
+  induction k with
+  | zero =>
+    intro i fuel hi hf
+    obtain ⟨f, rfl⟩ : ∃ f, fuel = f + 1 := ⟨fuel - 1, by omega⟩
+    simp only [Nat.add_zero] at hi
+    rw [noDelimGo, if_neg (by omega), hi, List.take_length]
+  | succ k ih =>
+    intro i fuel hi hf
+    obtain ⟨f, rfl⟩ : ∃ f, fuel = f + 1 := ⟨fuel - 1, by omega⟩
+    have hil : i < x.length := by omega
+    obtain ⟨g1, g2⟩ := flatMap_digits_get upper x i hil
+    rw [noDelimGo, if_pos (by omega)]
+    have m1 : (0 + 2 * i) % 2 ^ 64 = 2 * i := by rw [Nat.zero_add]; exact Nat.mod_eq_of_lt (by omega)
+    have m2 : (0 + 2 * i + 1) % 2 ^ 64 = 2 * i + 1 := by rw [Nat.zero_add]; exact Nat.mod_eq_of_lt (by omega)
+    simp only [m1, m2, strAt, g1, g2, Res.bind_ok, pair_digits]
+    have : x.take i ++ [x[i]] = x.take (i + 1) := by
+      rw [List.take_add_one, List.getElem?_eq_getElem hil]; rfl
+    rw [this]
+    exact ih (i + 1) f (by omega) (by omega)
+
+theorem toVecNoDelim_digits (upper : Bool) (x : List UInt8) (hx : 2 * x.length < 2 ^ 64 - 1) :
+    toVecNoDelim (x.flatMap (byteChars upper)) = ⟨none, x⟩ := by
+  have hnp : npos = 2 ^ 64 - 1 := rfl
+  cases x with
+  | nil => simp [toVecNoDelim, findFirstNotOf, npos]
+  | cons b r =>
+    have hlen := flatMap_digits_length upper (b :: r)
+    -- first character is a digit
+    have hstart : findFirstNotOf ((b :: r).flatMap (byteChars upper)) [32, 9] 0 = 0 := by
+      rw [findFirstNotOf_eq]
+      have hb := b.toNat_lt
+      have := digit_not_ws upper ⟨b.toNat / 16, by omega⟩
+      simp only [List.flatMap_cons, byteChars, List.cons_append, List.drop_zero, List.findIdx?_cons, this]
+      simp
+    -- last character is a digit
+    obtain ⟨init, l, hl, hlws⟩ : ∃ init l, (b :: r).flatMap (byteChars upper) = init ++ [l] ∧ [32, 9].contains l = false := by
+      rcases List.eq_nil_or_concat (b :: r) with h | ⟨r', b', h⟩
+      · simp at h
+      · have hb := b'.toNat_lt
+        refine ⟨r'.flatMap (byteChars upper) ++ [digitChar upper (b'.toNat / 16)], digitChar upper (b'.toNat % 16), ?_,
+          digit_not_ws upper ⟨b'.toNat % 16, by omega⟩⟩
+        rw [h]; simp [byteChars]
+    have hlast : findLastNotOf ((b :: r).flatMap (byteChars upper)) [32, 9] = init.length := by
+      rw [hl]; exact findLastNotOf_concat init [32, 9] l hlws
+    have hil : init.length + 1 = 2 * (b :: r).length := by
+      rw [← hlen, hl]; simp
+    unfold toVecNoDelim
+    simp only [hstart, hlast]
+    rw [if_neg (by rw [hnp]; omega)]
+    have e1 : (init.length + 1) % 2 ^ 64 = 2 * (b :: r).length := by rw [hil]; exact Nat.mod_eq_of_lt (by omega)
+    rw [e1]
+    have e2 : (2 * (b :: r).length + 2 ^ 64 - 0) % 2 ^ 64 = 2 * (b :: r).length := by
+      rw [Nat.sub_zero, Nat.add_mod_right]; exact Nat.mod_eq_of_lt (by omega)
+    rw [e2]
+    have := noDelim_loop upper (b :: r) (by omega) (b :: r).length 0 (((b :: r).flatMap (byteChars upper)).length + 2)
+      (by omega) (by rw [hlen]; omega)
+    simpa using this
+
+end Tbox.C19.Hex
+
+namespace Tbox.C19.Hex
+open Tbox.C19 Tbox.C19.B64
+
+/-! ### vector reader with a delimiter set -/
+
+/-- no character of the delimiter is a hex digit of the chosen letter case -/
+def delimOk (upper : Bool) (delim : List UInt8) : Prop := ∀ n, n < 16 → digitChar upper n ∉ delim
+
+theorem findIdx_skip (p : UInt8 → Bool) : ∀ (xs : List UInt8) (y : UInt8) (ys : List UInt8),
+    (∀ x ∈ xs, p x = false) → p y = true → (xs ++ y :: ys).findIdx? p = some xs.length := by
+  intro xs
+  induction xs with
+  | nil => intro y ys _ hy; simp [List.findIdx?_cons, hy]
+  | cons a t ih =>
+    intro y ys hx hy
+    have ha : p a = false := hx a (by simp)
+    simp only [List.cons_append, List.findIdx?_cons, ha, Bool.false_eq_true, if_false,
+      ih y ys (fun x h => hx x (by simp [h])) hy]
+    simp
+
+theorem rawToHex_cons2 (upper : Bool) (delim : List UInt8) (b c : UInt8) (r : List UInt8) :
+    rawToHex upper delim (b :: c :: r) = byteChars upper b ++ delim ++ rawToHex upper delim (c :: r) := by
+  simp [rawToHex]
+
+theorem rawToHex_head (upper : Bool) (delim : List UInt8) : ∀ (b : UInt8) (r : List UInt8),
+    ∃ rest, rawToHex upper delim (b :: r) = digitChar upper (b.toNat / 16) :: digitChar upper (b.toNat % 16) :: rest
+  | b, [] => ⟨[], by simp [rawToHex, byteChars]⟩
+  | b, c :: r => ⟨delim ++ rawToHex upper delim (c :: r), by simp [rawToHex, byteChars]⟩
+
+theorem rawToHex_length_ge (upper : Bool) (delim : List UInt8) : ∀ x : List UInt8, x.length ≤ (rawToHex upper delim x).length
+  | [] => by simp [rawToHex]
+  | [b] => by simp [rawToHex, byteChars]
+  | b :: c :: r => by
+    have := rawToHex_length_ge upper delim (c :: r)
+    rw [rawToHex_cons2]; simp only [List.length_append, byteChars, List.length_cons, List.length_nil] at this ⊢; omega
+
+theorem delimGo_npos (s delim : List UInt8) (fuel : Nat) (out : List UInt8) : delimGo s delim fuel npos out = ⟨none, out⟩ := by
+  cases fuel with
+  | zero => rw [delimGo]
+  | succ f => rw [delimGo, if_pos rfl]
+
+theorem delim_loop (upper : Bool) (s delim : List UInt8) (hd : delimOk upper delim) (hne : delim ≠ []) (hs : s.length < npos) :
+    ∀ (xr : List UInt8), xr ≠ [] → ∀ (start fuel : Nat) (out : List UInt8), xr.length ≤ fuel →
+      s.drop start = rawToHex upper delim xr → delimGo s delim fuel start out = ⟨none, out ++ xr⟩ := by
+  have hnp : npos = 2 ^ 64 - 1 := rfl
+  intro xr
+  induction xr with
+  | nil => intro h; exact absurd rfl h
+  | cons b r ih =>
+    intro _ start fuel out hf hdrop
+    obtain ⟨f, rfl⟩ : ∃ f, fuel = f + 1 := ⟨fuel - 1, by simp at hf; omega⟩
+    have hb := b.toNat_lt
+    have n1 : digitChar upper (b.toNat / 16) ∉ delim := hd _ (by omega)
+    have n2 : digitChar upper (b.toNat % 16) ∉ delim := hd _ (by omega)
+    obtain ⟨c1, c2, c3, _⟩ := charVal_digits upper b
+    cases r with
+    | nil =>
+      have hL : s.drop start = [digitChar upper (b.toNat / 16), digitChar upper (b.toNat % 16)] := by
+        rw [hdrop]; simp [rawToHex, byteChars]
+      have hlen : s.length = start + 2 := by
+        have := congrArg List.length hL; simp at this; omega
+      have g0 : s[start]? = some (digitChar upper (b.toNat / 16)) := by
+        have := @List.getElem?_drop _ s start 0; rw [hL] at this; simpa using this.symm
+      have g1 : s[start + 1]? = some (digitChar upper (b.toNat % 16)) := by
+        have := @List.getElem?_drop _ s start 1; rw [hL] at this; simpa using this.symm
+      have hfo : findFirstOf s delim start = npos := by
+        rw [findFirstOf_eq, hL]
+        simp [List.findIdx?_cons, n1, n2]
+      have hnext : findFirstNotOf s delim s.length = npos := by
+        rw [findFirstNotOf_eq]; simp
+      have hsn : start ≠ npos := by omega
+      rw [delimGo, if_neg hsn]
+      simp only [hfo, if_true, hlen, show start + 2 - start = 2 by omega]
+      simp only [show ¬ (2 = 1) by omega, if_false, strAt, g0, g1, Res.bind_ok, c1, c2, Res.pure_eq, c3]
+      rw [← hlen, hnext, delimGo_npos]
+    | cons c r =>
+      obtain ⟨d0, dt, hdel⟩ : ∃ d0 dt, delim = d0 :: dt := by
+        cases delim with
+        | nil => exact absurd rfl hne
+        | cons a t => exact ⟨a, t, rfl⟩
+      have hL : s.drop start = digitChar upper (b.toNat / 16) :: digitChar upper (b.toNat % 16)
+          :: (delim ++ rawToHex upper delim (c :: r)) := by
+        rw [hdrop, rawToHex_cons2]; simp [byteChars]
+      have hlen : start + 2 + delim.length + (rawToHex upper delim (c :: r)).length = s.length := by
+        have := congrArg List.length hL; simp at this; omega
+      have g0 : s[start]? = some (digitChar upper (b.toNat / 16)) := by
+        have := @List.getElem?_drop _ s start 0; rw [hL] at this; simpa using this.symm
+      have g1 : s[start + 1]? = some (digitChar upper (b.toNat % 16)) := by
+        have := @List.getElem?_drop _ s start 1; rw [hL] at this; simpa using this.symm
+      have hd0 : delim.contains d0 = true := by rw [hdel]; simp
+      have hfo : findFirstOf s delim start = start + 2 := by
+        rw [findFirstOf_eq, hL]
+        have := findIdx_skip (fun c => delim.contains c)
+          [digitChar upper (b.toNat / 16), digitChar upper (b.toNat % 16)] d0 (dt ++ rawToHex upper delim (c :: r))
+          (by intro x hx; simp at hx; rcases hx with rfl | rfl
+              · simpa using n1
+              · simpa using n2) hd0
+        have e : digitChar upper (b.toNat / 16) :: digitChar upper (b.toNat % 16) :: (delim ++ rawToHex upper delim (c :: r))
+            = [digitChar upper (b.toNat / 16), digitChar upper (b.toNat % 16)] ++ d0 :: (dt ++ rawToHex upper delim (c :: r)) := by
+          rw [hdel]; simp
+        rw [e, this]; rfl
+      have hdrop2 : s.drop (start + 2) = delim ++ rawToHex upper delim (c :: r) := by
+        rw [← List.drop_drop, hL]; rfl
+      obtain ⟨rest, hhead⟩ := rawToHex_head upper delim c r
+      have hc := c.toNat_lt
+      have n3 : digitChar upper (c.toNat / 16) ∉ delim := hd _ (by omega)
+      have hnext : findFirstNotOf s delim (start + 2) = start + 2 + delim.length := by
+        rw [findFirstNotOf_eq, hdrop2, hhead]
+        rw [findIdx_skip (fun c => !delim.contains c) delim _ _
+          (by intro x hx; simp [hx]) (by simpa using n3)]
+        rfl
+      have hdrop3 : s.drop (start + 2 + delim.length) = rawToHex upper delim (c :: r) := by
+        rw [← List.drop_drop, hdrop2, List.drop_left]
+      have hsn : start ≠ npos := by omega
+      have hsn2 : start + 2 ≠ npos := by omega
+      rw [delimGo, if_neg hsn]
+      simp only [hfo]
+      rw [if_neg hsn2]
+      simp only [show start + 2 - start = 2 by omega, show ¬ (2 = 1) by omega, if_false, if_true, strAt, g0, g1,
+        Res.bind_ok, c1, c2, Res.pure_eq, c3, hnext]
+      rw [ih (by simp) _ f _ (by simp at hf ⊢; omega) hdrop3]
+      simp
+
+theorem toVecDelim_digits (upper : Bool) (delim x : List UInt8) (hd : delimOk upper delim) (hne : delim ≠ [])
+    (hs : (rawToHex upper delim x).length < npos) :
+    toVecDelim (rawToHex upper delim x) delim = ⟨none, x⟩ := by
+  unfold toVecDelim
+  cases x with
+  | nil => simp [rawToHex, findFirstNotOf, delimGo_npos]
+  | cons b r =>
+    obtain ⟨rest, hhead⟩ := rawToHex_head upper delim b r
+    have hb := b.toNat_lt
+    have hstart : findFirstNotOf (rawToHex upper delim (b :: r)) delim 0 = 0 := by
+      rw [findFirstNotOf_eq, List.drop_zero, hhead]
+      have n1 : digitChar upper (b.toNat / 16) ∉ delim := hd _ (by omega)
+      simp [List.findIdx?_cons, n1]
+    rw [hstart]
+    have := delim_loop upper _ delim hd hne hs (b :: r) (by simp) 0 ((rawToHex upper delim (b :: r)).length + 1) []
+      (by have := rawToHex_length_ge upper delim (b :: r); omega) (by simp)
+    simpa using this
+
+end Tbox.C19.Hex
